@@ -86,6 +86,12 @@ CLAIMED = {
         "Single-worker pools; priority keys recomputed by the harness (deadline / release / deadline-now-remaining).",
         "DESIGN.md 3 C13",
     ),
+    "C14": (
+        "Hypothesis-generated small instances; differential against the harness's own DFS enumeration of the planner's documented decision space (ILP: brute-force maximum of rewarded graphs; TetriSched: maximality of the returned plan)",
+        "Reference brute-force optimum / maximality predicate over the complete decision space of each generated instance inside the enumeration bound (<= 4 offered tasks, <= 2 workers, <= 2 strategies, horizon <= 12 slots). Exploration over instances, exhaustive within each instance.",
+        "Time models taken from the planners' documentation/verify_schedule conventions (ILP closed intervals and +1 precedence, TetriSched half-open windows on the slot grid); licence-limited sizes; brute-force truncation discards the case.",
+        "DESIGN.md 3 C14",
+    ),
     "C16": (
         "Hypothesis-generated EventTime triples against integer-microsecond arithmetic; generated "
         "EventQueue operation histories against a reference multiset (model-based)",
